@@ -138,6 +138,9 @@ class Hist:
         self.uniq += 1
         self.seq = getattr(self, "seq", self.rng.randrange(65000, 65536)) + 1
         v = getattr(self, "cur_v", "a")
+        if cls == "alien" and v == "o":
+            cls = "non"      # a packet of a payload type the SDP does not announce never reaches the group (BaseInSession drops it);
+                             # it is generated only where it is no GOP start, and under an unknown codec every packet is one
         pt, body = rtp_body(v, cls)
         fill = self.rng.choice([0, 0, 3, 40, 1400])
         body = body + bytes([self.uniq & 255, (self.uniq >> 8) & 255]) * (1 if cls not in RTP_SHORT else 0)
